@@ -101,6 +101,11 @@ type Sink struct {
 	fired     string // fault kind that actually fired ("" if none)
 	shortNil  int    // number of contract-breaking short writes without error
 	aux       int    // calls of optional methods of the richer destinations (W1f, W1s, W1b)
+	// stack W2p: bytes the caller had written into its own buffered writer before it called
+	// goldmark (a page header), and what the sink had seen when goldmark returned
+	prefix           []byte
+	errCallsAtReturn int
+	returned         bool
 	// reach probes
 	failOnFinalFlush bool // set by the stack wrapper: first failure happened inside the final Flush
 	failBeyond4096   bool
@@ -214,7 +219,8 @@ func (s *Sink) Write(p []byte) (int, error) {
 
 // Stack names: "W1" sink as plain io.Writer (goldmark wraps it in its own bufio.Writer);
 // "W1f"/"W1s"/"W1b" the same with a richer method set (see flushSink, stringSink, bufferSink);
-// "W2:<size>" caller-supplied bufio.Writer of that size; "W3" harness unbuffered BufWriter
+// "W2:<size>" caller-supplied bufio.Writer of that size; "W2p:<size>" the same with a page
+// header already pending in it when goldmark is called, flushed by the caller afterwards; "W3" harness unbuffered BufWriter
 // with bufio's sticky-error contract: every single renderer write reaches the sink.
 
 type unbuf struct {
@@ -269,6 +275,14 @@ func (u *unbuf) Flush() error {
 type yieldingBuf struct {
 	*bufio.Writer
 	y *yielder
+	s *Sink // W2p only
+}
+
+// callerFlush: stack W2p. goldmark has returned; remember what the sink had seen by then,
+// and let the caller finish its page and flush its own writer as a real caller would.
+func (b yieldingBuf) callerFlush() {
+	b.s.errCallsAtReturn, b.s.returned = b.s.errCalls, true
+	_ = b.Writer.Flush()
 }
 
 func (b yieldingBuf) Write(p []byte) (int, error) { b.y.yield(siteBufW); return b.Writer.Write(p) }
@@ -341,6 +355,18 @@ func mkStack(name string, s *Sink, y *yielder) io.Writer {
 		return &bufferSink{s}
 	case name == "W3":
 		return &unbuf{s: s, y: y}
+	case len(name) > 4 && name[:4] == "W2p:":
+		// the caller is assembling a page in its own bufio.Writer: a header is already pending
+		// in the buffer when goldmark is called
+		size := 0
+		fmt.Sscanf(name[4:], "%d", &size)
+		if size <= 0 {
+			panic("bad stack " + name)
+		}
+		s.prefix = []byte("<!-- page head -->\n")
+		bw := bufio.NewWriterSize(s, size)
+		_, _ = bw.Write(s.prefix)
+		return yieldingBuf{bw, y, s}
 	case len(name) > 3 && name[:3] == "W2:":
 		size := 0
 		fmt.Sscanf(name[3:], "%d", &size)
@@ -349,7 +375,7 @@ func mkStack(name string, s *Sink, y *yielder) io.Writer {
 		}
 		bw := bufio.NewWriterSize(s, size)
 		if y != nil {
-			return yieldingBuf{bw, y}
+			return yieldingBuf{bw, y, nil}
 		}
 		return bw
 	}
@@ -366,6 +392,9 @@ func genStack(r *Rng) string {
 		}
 		return "W1"
 	case 1:
+		if r.Split("pending-prefix").Chance(1, 4) {
+			return fmt.Sprintf("W2p:%d", pick(r, w2Sizes))
+		}
 		return fmt.Sprintf("W2:%d", pick(r, w2Sizes))
 	}
 	return "W3"
